@@ -18,7 +18,7 @@ use std::path::Path;
 pub static SPEC: PropSpec = PropSpec {
     id: "C20",
     level: "exploration",
-    rule: "queries = (text, line, col, kind) with kind in {hover, dot, colon-colon}; texts: corpus files, prefixes cut at token boundaries, 1-3-edit token/char mutations, templated programs with known types/members, and a two-package project in which Main and the imported package define equally named types with different members (completion after paths of 1-3 qualifiers); positions: token boundaries, after every '.' and '::', one past line ends, past EOF, u32::MAX; a query is non-trivial when its text differs from every corpus file or it is an agreement query; distinct by hash of (text, position, kind)",
+    rule: "queries = (text, line, col, kind) with kind in {hover, dot, colon-colon}; texts: corpus files, prefixes cut at token boundaries, 1-3-edit token/char mutations, templated programs with known types/members, and a two-package project in which Main and the imported package define equally named types with different members (completion after paths of 1-3 qualifiers); positions: token boundaries, after every '.' and '::', byte columns inside multi-byte characters (every byte column of four texts with non-ASCII strings and comments), one past line ends, past EOF, u32::MAX; a query is non-trivial when its text differs from every corpus file or it is an agreement query; distinct by hash of (text, position, kind)",
     eval_counter: "queries",
     assumptions: &[
         "hover agreement is checked against the type written in an annotation (binder, later use, and an unannotated alias) and, for 32 expression positions (callee paths of UFCS / inherent / dot / generic calls, field names, constructors, literals, arguments), against the declared signature with Self and type parameters instantiated",
@@ -30,7 +30,7 @@ pub static SPEC: PropSpec = PropSpec {
     case_cpu_s: 20,
     shards: 0,
     run,
-    floors: &[("queries", 20_000, 1_000_000), ("hover_agreement_checked", 200, 5_000), ("dot_items_checked", 50, 1_000), ("colon_items_checked", 50, 1_000), ("insertions_typechecked", 50, 1_000), ("qualified_path_nonempty_answers", 100, 3_000)],
+    floors: &[("queries", 20_000, 1_000_000), ("hover_agreement_checked", 200, 5_000), ("dot_items_checked", 50, 1_000), ("colon_items_checked", 50, 1_000), ("insertions_typechecked", 50, 1_000), ("qualified_path_nonempty_answers", 100, 3_000), ("queries_inside_a_character", 60, 60)],
     finish: None,
 };
 
@@ -107,9 +107,14 @@ fn crash_queries(case: &mut Case, wl: &str, src: &str, rng: &mut Rng, max_pos: u
     }
     drop(toks);
     offs.push(src.len());
-    offs.retain(|o| *o <= src.len() && src.is_char_boundary(*o));
+    offs.retain(|o| *o <= src.len());
     rng.shuffle(&mut offs);
     offs.truncate(max_pos);
+    // columns that fall inside a multi-byte character (a column is a byte count: an editor may send any)
+    let mut inside: Vec<usize> = src.char_indices().filter(|(_, ch)| ch.len_utf8() > 1).flat_map(|(i, ch)| (1..ch.len_utf8()).map(move |k| i + k)).collect();
+    rng.shuffle(&mut inside);
+    inside.truncate(max_pos.max(4));
+    offs.extend(inside);
     for o in offs {
         let (l, c) = line_col(src, o);
         query_all(case, wl, src, l, c);
@@ -666,6 +671,30 @@ fn run(ctx: &mut Ctx) {
         ctx.case(&format!("dot_agree/{}/{}", ctx.shard, i), |c| agreement_dot(c, &mut rng));
         ctx.case(&format!("colon_agree/{}/{}", ctx.shard, i), |c| agreement_colon(c, &mut rng));
         ctx.case(&format!("colon_agree_qualified/{}/{}", ctx.shard, i), |c| agreement_colon_qualified(c, &mut rng));
+    }
+    // texts with multi-byte characters in strings, comments and next to `.` / `::`: every byte column of every line
+    {
+        let texts: [&str; 4] = [
+            "struct P { x: int32, y: string }\nfn main() {\n    let p = P { x: 1, y: \"h\u{e9}llo \u{4e16}\u{754c}\" };\n    let s = \"\u{e9}\"; let q = p.x;\n    // caf\u{e9} \u{1F600} p.\n    let t = (p.y, \"\u{1F600}\").0;\n    ()\n}\n",
+            "enum E { A, B }\nfn main() {\n    let s = \"\u{4e16}\"; let e = E::A;\n    let z = \"\u{e9}\u{e9}\u{e9}\" + s; E::\n}\n",
+            "fn main() {\n    let s = \"\u{1F600}\u{1F600}\";\n    s.\n}\n",
+            "// \u{4e16}\u{754c}\nfn f(x: int32) -> int32 { x } // \u{e9}\nfn main() { let _ = f(1); \u{e9} }\n",
+        ];
+        for (ti, text) in texts.iter().enumerate() {
+            if !ctx.mine(90_000 + ti as u64) {
+                continue;
+            }
+            ctx.case(&format!("multibyte/{}", ti), |c| {
+                runner::note_input(text);
+                for o in 0..=text.len() {
+                    let (l, col) = line_col(text, o);
+                    query_all(c, "multibyte", text, l, col);
+                    if !text.is_char_boundary(o) {
+                        c.count("queries_inside_a_character", 3);
+                    }
+                }
+            });
+        }
     }
     // Part A: corpus verbatim with many positions
     for (i, (name, text)) in corpus.iter().enumerate() {
